@@ -3,7 +3,9 @@ pub mod c02;
 pub mod c03;
 pub mod c05;
 pub mod c06;
+pub mod c07;
 pub mod c08;
+pub mod c09;
 pub mod c10;
 pub mod c11;
 pub mod c12;
@@ -11,6 +13,7 @@ pub mod c13;
 pub mod c14;
 pub mod c15;
 pub mod c16;
+pub mod c17;
 pub mod families;
 
 use crate::drivers::Case;
@@ -25,7 +28,9 @@ pub fn run_check(id: &str, tier: &str, seed: u64) -> Option<i32> {
         "C04" => c03::run_c04(tier, seed),
         "C05" => c05::run(tier, seed),
         "C06" => c06::run(tier, seed),
+        "C07" => c07::run(tier, seed),
         "C08" => c08::run(tier, seed),
+        "C09" => c09::run(tier, seed),
         "C10" => c10::run(tier, seed),
         "C11" => c11::run(tier, seed),
         "C12" => c12::run(tier, seed),
@@ -33,6 +38,7 @@ pub fn run_check(id: &str, tier: &str, seed: u64) -> Option<i32> {
         "C14" => c14::run(tier, seed),
         "C15" => c15::run(tier, seed),
         "C16" => c16::run(tier, seed),
+        "C17" => c17::run(tier, seed),
         _ => return None,
     })
 }
@@ -50,10 +56,13 @@ pub fn replay(replay: &Value) -> Result<Vec<Violation>, String> {
         "C04" => c03::replay_c04(&case_of(replay)?),
         "C05" => c05::replay(replay)?,
         "C06" => c06::replay(replay)?,
+        "C07" => c07::replay(replay)?,
         "C08" => c08::replay(replay)?,
+        "C09" => c09::replay(replay)?,
         "C10" | "C10-free" => c10::replay(replay)?,
         "C11" | "C11-sim" => c11::replay(replay)?,
         "C16" => c16::replay(replay)?,
+        "C17" => c17::replay(replay)?,
         "C12" => c12::replay(replay)?,
         "C13" => c13::replay(replay)?,
         "C14" => c14::replay(replay)?,
